@@ -25,6 +25,9 @@ C_FUNCS = [
     ("trees.c", "tsk_tree_seek"),
     ("trees.c", "tsk_tree_seek_index"),
     ("tables.c", "tsk_table_collection_check_tree_integrity"),
+    ("tables.c", "tsk_table_collection_add_and_remap_node"),
+    ("tables.c", "tsk_node_table_get_row"),
+    ("tables.c", "tsk_node_table_get_row_unsafe"),
 ]
 UNVERIFIED = ["python/_tskitmodule.c (CPython API)", "tsk_ibd_finder_add_sample_ancestry (assumed contract)",
               "ancestor_mapper_add_ancestry (assumed contract)", "allocation-failure paths beyond NULL checks"]
